@@ -605,7 +605,7 @@ func main() {
 	r.Set("evaluations", r.Get("executions"))
 	r.Set("distinct_nontrivial", r.Get("executions"))
 	r.Set("rule", "per emitted program: every text up to the length bound over one representative per symbol class of its automaton plus blank, LF, multi-byte and unmatched characters, run with buffer halves 4, 5, 8 (texts whose longest run plus look-ahead fits in one half) and through New (4096); plus a padding sweep carrying tokens across offsets 4096 and 8192; plus 49 special characters (all C0 controls, DEL, NEL, every Unicode white-space / zero-width character, BOM, U+FFFD, U+10FFFF) alone and next to a token (only blank, tab, LF, CR may be discarded); states = distinct (program, half size, text length mod buffer size) reader configurations exercised; transitions = characters fed")
-	r.Assume("reference: maximal run without backtracking as the property states; WS/EOL/COMMENT skipped; an unmatched space, tab, LF or CR is discarded; offsets accepted in characters or in bytes if consistent; no NUL in texts; no token longer than one buffer half")
+	r.Assume("reference: maximal run without backtracking as the property states; WS/EOL/COMMENT skipped; an unmatched space, tab, LF or CR is discarded; offsets accepted in characters or in bytes if consistent; no token longer than one buffer half (the documented limit of the two-buffer scheme, docs/3-lexer_theory.md)")
 	r.Finish()
 }
 
